@@ -180,8 +180,37 @@ def graph_repr(reg, roots):
     return type_repr(roots["Root"]), sorted(type_repr(m) for m in reg.models)
 
 
-def oracle_c07(samples):
-    base = graph_repr(*(lambda r: (r[0], r[2]))(infer({"Root": samples})))
+_COMMON10 = {f"k{i}": i for i in range(10)}
+C07_POLICY_CASES = [
+    # (samples, option set): merge policies other than the default and the dict-key options, where order sensitivity can hide
+    ([{"p": {**_COMMON10, "f": {"a": 1}}}, {"q": {**_COMMON10, "f": {"a": "s"}}}], "number10"),
+    ([{"p": {**_COMMON10, "f": {"a": 1}}}, {"q": {**_COMMON10, "f": {"a": "s"}}}], "number10_exact"),
+    ([{"p": {"a": 1, "b": 2}, "q": {"a": "s", "b": 2}}, {"p": {"a": 1.5, "b": None}}], "exact"),
+    ([{"scores": {"1": 1, "2": 2}}, {"scores": {"1": 1, "x": 2}}], "dkr_digits"),
+    ([{"scores": {"1": 1, "x": 2}}, {"scores": {"1": 1, "2": 2}}, {"scores": {"7": "s"}}], "dkr_digits"),
+    ([{"m": {"k": {"1": 1}}, "n": {"k": {"y": 1}}}, {"m": {"k": {"z": 2}}}], "dkr_digits"),
+    ([{"f": {"a": 1}, "g": {"a": 1}}, {"f": {"b": 2}}], "dkf_f"),
+    ([{"owner": {"id": 1, "name": "n", "rank": 5}}, {"editors": [{"id": 2, "name": "m", "rank": "high"}, {"id": 3, "name": "k"}]}], "number2"),
+]
+
+
+def _c07_options(name):
+    from json_to_models.registry import ModelFieldsNumberMatch
+    return {
+        "default": {},
+        "number10": {"merge": [ModelFieldsNumberMatch(10)]},
+        "number2": {"merge": [ModelFieldsNumberMatch(2)]},
+        "number10_exact": {"merge": [ModelFieldsNumberMatch(10), ModelFieldsEquals()]},
+        "exact": {"merge": [ModelFieldsEquals()]},
+        "dkr_digits": {"dict_keys_regex": [r"^\d+$"]},
+        "dkf_f": {"dict_keys_fields": ["f"]},
+    }[name]
+
+
+def oracle_c07(samples, optname="default"):
+    import copy
+    kw = lambda: copy.deepcopy(_c07_options(optname)) if optname != "default" else {}
+    base = graph_repr(*(lambda r: (r[0], r[2]))(infer({"Root": copy.deepcopy(samples)}, **kw())))
     variants = []
     if len(samples) > 1:
         variants.append(list(reversed(samples)))
@@ -190,17 +219,26 @@ def oracle_c07(samples):
     variants.append(samples + [samples[0]])
     variants.append([samples[-1]] + samples)
     for v in variants:
-        reg, gen, roots = infer({"Root": v})
+        reg, gen, roots = infer({"Root": copy.deepcopy(v)}, **kw())
         if graph_repr(reg, roots) != base:
-            return f"reordered/duplicated samples {jdump(v)[:120]} infer {graph_repr(reg, roots)[0]} instead of {base[0]}"
+            return f"[{optname}] reordered/duplicated samples {jdump(v)[:120]} infer {graph_repr(reg, roots)[0]} instead of {base[0]}"
     return None
+
+
+def oracle_c07_policy(i):
+    samples, optname = C07_POLICY_CASES[i]
+    return oracle_c07(samples, optname)
 
 
 @bounded("C07", "permutation_duplication_invariance")
 def c07(tier, seed):
     cases = (s for s in sample_lists(tier, seed) if len(s) >= 1)
     r = run_cases(cases, oracle_c07, "c07")
-    r["bound"] = "sample domain of C01; variants: reversal, rotation, repeating the first / last sample; types compared as sets"
+    r2 = run_cases(list(range(len(C07_POLICY_CASES))), oracle_c07_policy, "c07_policy")
+    for k in ("evaluations", "distinct"):
+        r[k] += r2[k]
+    r["violations"] += r2["violations"]
+    r["bound"] = f"sample domain of C01 (default options) + {len(C07_POLICY_CASES)} inputs under number-only / exact / number+exact merge policies and dict-key regex / field options; variants: reversal, rotation, reversed key order, repeating the first / last sample; types compared as sets"
     r["function"] = "generate + merge_models"
     return r
 
@@ -251,6 +289,39 @@ def oracle_c08_samples(samples):
     if sorted(type_repr(m) for m in reg.models) != before:
         return "re-running simplification on the simplified graph changed it"
     return None
+
+
+LATE_SAMPLES = [
+    [{"d": "2018-12-31"}, {"d": "free text"}],
+    [{"d": ["2018-12-31", "12:58", "x y"]}],
+    [{"d": "2018-12-31", "t": "12:58"}, {"d": "12", "t": "2018-12-31T12:58:12"}],
+]
+
+
+def oracle_c08_late_registration(i):
+    """a generator keeps working with the registry it was given: pseudo-types registered after the generator was built are string
+    types for union simplification too (str absorbs them, related ones are resolved)"""
+    from json_to_models.dynamic_typing import register_datetime_classes
+    from json_to_models.registry import ModelRegistry
+    reg_ = fresh_registry()
+    gen = MetadataGenerator(str_types_registry=reg_)
+    register_datetime_classes(reg_)
+    mr = ModelRegistry()
+    mr.process_meta_data(gen.generate(*LATE_SAMPLES[i]), model_name="Root")
+    mr.merge_models(gen)
+    for m in mr.models:
+        v = nf_violations(m.type)
+        if v:
+            return f"registry extended after the generator was created: model {type_repr(m, False)} not in normal form: {v[:2]}"
+    return None
+
+
+@bounded("C08", "late_registered_pseudo_types")
+def c08_late(tier, seed):
+    r = run_cases(list(range(len(LATE_SAMPLES))), oracle_c08_late_registration, "c08_late")
+    r["bound"] = f"{len(LATE_SAMPLES)} inputs mixing date/time/datetime strings with free text, generator created before the date types are registered in its registry"
+    r["function"] = "MetadataGenerator.__init__ / _optimize_union against a registry that grows"
+    return r
 
 
 @bounded("C08", "normal_form_type_universe")
@@ -361,7 +432,7 @@ def c13(tier, seed):
     return r
 
 
-ORACLES = {"c01": oracle_c01, "c02": oracle_c02, "c07": oracle_c07, "c08_types": lambda i: oracle_c08_types(tuple(i)),
+ORACLES = {"c07_policy": oracle_c07_policy, "c08_late": oracle_c08_late_registration, "c01": oracle_c01, "c02": oracle_c02, "c07": oracle_c07, "c08_types": lambda i: oracle_c08_types(tuple(i)),
            "c08_samples": oracle_c08_samples, "c13": lambda c: oracle_c13(tuple(c))}
 
 
